@@ -42,6 +42,8 @@ pub struct StringD { _p: u8 }
 impl StringD {
     pub uninterp spec fn num(&self) -> int;
     pub uninterp spec fn empty(&self) -> bool;
+    /// the value is written relative to the other bound (its type group starts with '@')
+    pub uninterp spec fn at_rel(&self) -> bool;
     #[verifier::external_body]
     pub fn as_str(&self) -> (r: &StrD) ensures r.num() == self.num() { unimplemented!() }
     #[verifier::external_body]
@@ -59,7 +61,9 @@ impl<'h> CapturesD<'h> {
 /// stand-in (R9) for `REGEX_DUR_OFFSET.with(|re| re.captures(val.as_str()))`
 pub uninterp spec fn caps_of(val: &StringD) -> Option<CapturesD<'static>>;
 #[verifier::external_body]
-pub fn verif_dur_captures<'h>(val: &'h StringD) -> (r: Option<CapturesD<'h>>) { unimplemented!() }
+pub fn verif_dur_captures<'h>(val: &'h StringD) -> (r: Option<CapturesD<'h>>)
+    ensures r is Some ==> (val.at_rel() <==> (r.unwrap().grp(DG::Type) is Some && r.unwrap().grp(DG::Type).unwrap().first() == Some('@')))
+{ unimplemented!() }
 /// stand-in (R9) for `i64::from_str_radix(s, 10)`: the count, non-negative; Err on overflow
 #[verifier::external_body]
 pub struct ParseIntError { _p: u8 }
@@ -111,6 +115,7 @@ pub open spec fn sign_of(c: CapturesD) -> int { if c.grp(DG::AddSub) is Some && 
         // "relative to the other bound"
         r is Some ==> exists|c: CapturesD| #[trigger] sign_of(c) != 0 && r.unwrap().0.secs() == sign_of(c) * (cnt(c, DG::Weeks) * 604800 + cnt(c, DG::Days) * 86400 + cnt(c, DG::Hours) * 3600 + cnt(c, DG::Minutes) * 60 + cnt(c, DG::Seconds))
             && (r.unwrap().1 is Other <==> (c.grp(DG::Type) is Some && c.grp(DG::Type).unwrap().first() == Some('@'))),
+        r is Some ==> (r.unwrap().1 is Other <==> val.at_rel()),
 //@at_entry
     proof { axiom_dgids(); }
 //@after "let addsub: i64 = duration_addsub as i64;"
@@ -219,6 +224,41 @@ impl FixedOffset {
         }),
 //@mutate "let other_off = dt_other.checked_add_signed(duration);" "let other_off = Some(*dt_other);"
 //@end
+
+// =====================================================================================================
+// CLI-WINDOW — how the two bounds are taken from the command line (cli_process_args, src/bin/s4.rs): the lower bound from the -a
+// text, the upper from the -b text, both read in the --tz-offset zone; the one written relative to the other ("@+1d") is read
+// second and is given the other as its reference; and the run does not start with a lower bound after the upper one (the
+// precondition unit SRCH states for find_sysline_between_datetime_filters).  The two `match` statements, cut from the function.
+// ---- assumed: process_dt_exit (src/bin/s4.rs; string handling outside Verus' reach) as an opaque function of the text, the zone and
+// the reference bound
+pub uninterp spec fn parsed(dts: Option<StringD>, tz: FixedOffset, other: DateTimeLOpt) -> DateTimeLOpt;
+#[verifier::external_body]
+pub fn process_dt_exit(dts_opt: &Option<StringD>, tz_offset: &FixedOffset, dt_other: &DateTimeLOpt, now_utc: &Timestamp) -> (r: DateTimeLOpt)
+    ensures r == parsed(*dts_opt, *tz_offset, *dt_other)
+{ unimplemented!() }
+pub struct CLI_ArgsW { pub dt_after: Option<StringD>, pub dt_before: Option<StringD> }
+pub open spec fn window_normal(args: &CLI_ArgsW, tz: FixedOffset, r: (DateTimeLOpt, DateTimeLOpt)) -> bool {
+    r.0 == parsed(args.dt_after, tz, None) && r.1 == parsed(args.dt_before, tz, r.0)
+}
+pub open spec fn window_a_relative(args: &CLI_ArgsW, tz: FixedOffset, r: (DateTimeLOpt, DateTimeLOpt)) -> bool {
+    r.1 == parsed(args.dt_before, tz, None) && r.0 == parsed(args.dt_after, tz, r.1)
+}
+pub fn cli_window(args: &CLI_ArgsW, args_dt_after_s: &StringD, args_dt_before_s: &StringD, tz_offset: FixedOffset, utc_now: Timestamp) -> (r: (DateTimeLOpt, DateTimeLOpt))
+    ensures
+        window_normal(args, tz_offset, r) || (args_dt_after_s.at_rel() && window_a_relative(args, tz_offset, r)),
+        // the run goes on only with ordered bounds
+        r.0 is Some && r.1 is Some ==> instant(r.0.unwrap()) <= instant(r.1.unwrap()),
+{
+    let filter_dt_after: DateTimeLOpt;
+    let filter_dt_before: DateTimeLOpt;
+//@cut slice path=src/bin/s4.rs fn=cli_process_args anchor="match (string_wdhms_to_duration(args_dt_after_s), string_wdhms_to_duration(args_dt_before_s))" take=range end_anchor="match (filter_dt_after, filter_dt_before)" label=CLI-WINDOW
+//@replace "std::process::exit(EXIT_ERR);" "verif_exit();" count=*
+//@before "verif_exit();" 2
+                proof { assert(instant(dta) > instant(dtb)); }   // C03: the window is closed, A == B is a valid window; only A > B is refused
+//@end
+    (filter_dt_after, filter_dt_before)
+}
 
 } // verus!
 fn main() {}
